@@ -40,7 +40,7 @@ func (c09) Rule() string {
 }
 func (c09) Batches(string) int { return 16 }
 func (c09) Required(string) []string {
-	return []string{"placements", "placements_point_reached", "honoured", "followup_ok", "prior_aborted_runs", "wl.loop", "wl.cb-pooled", "wl.cb-unpooled", "wl.child-infinite", "wl.nested-child", "wl.sleep", "wl.eval-loop",
+	return []string{"placements", "placements_point_reached", "honoured", "followup_ok", "prior_aborted_runs", "sleep_probes", "wl.loop", "wl.cb-pooled", "wl.cb-unpooled", "wl.child-infinite", "wl.nested-child", "wl.sleep", "wl.eval-loop",
 		"action.abort", "action.abort2", "action.cancel", "order.parked", "order.racing", "stress_runs"}
 }
 func (c09) Assumptions() []string {
@@ -456,6 +456,79 @@ poll:
 	c.Count("followup_ok")
 }
 
+// sleepProbe: Abort (or context cancellation) while the script is inside time.Sleep(d), for short and very long d, in the
+// root VM, in a child VM and under Eval. The callback polls for the abort every 10 ms, so Run must be back long before the
+// 10 s allowed here; the verdict needs a clock because no instruction is executed while the script sleeps.
+func (m c09) sleepProbe(c *core.Ctx, dur string, mode string) {
+	var counter atomic.Int64
+	globals := ugo.Map{"TICK": &ugo.Function{Name: "TICK", Value: func(...ugo.Object) (ugo.Object, error) {
+		counter.Add(1)
+		return ugo.Undefined, nil
+	}}}
+	globals["CALLP"] = &ugo.Function{Name: "CALLP", ValueEx: func(cl ugo.Call) (ugo.Object, error) {
+		inv := ugo.NewInvoker(cl.VM(), cl.Get(0))
+		inv.Acquire()
+		defer inv.Release()
+		return inv.Invoke()
+	}}
+	src := "global (TICK, CALLP)\ntime := import(\"time\")\nTICK()\ntime.Sleep(" + dur + ")\nreturn 1\n"
+	if mode == "child" {
+		src = "global (TICK, CALLP)\ntime := import(\"time\")\nCALLP(func() {\n  TICK()\n  time.Sleep(" + dur + ")\n})\nreturn 1\n"
+	}
+	ctx, cancel := context.WithCancel(context.Background())
+	defer cancel()
+	var vm *ugo.VM
+	var ev *ugo.Eval
+	if mode == "eval" {
+		ev = ugo.NewEval(ugo.CompilerOptions{ModuleMap: c09modules()}, globals)
+		vm = ev.VM
+	} else {
+		bc, err := ugo.Compile([]byte(src), ugo.CompilerOptions{ModuleMap: c09modules()})
+		if err != nil {
+			c.Inconclusive("sleep probe does not compile: " + err.Error())
+			return
+		}
+		vm = ugo.NewVM(bc)
+	}
+	var runErr error
+	done := make(chan struct{})
+	go func() {
+		defer close(done)
+		if mode == "eval" {
+			_, _, runErr = ev.Run(ctx, []byte(src))
+		} else {
+			_, runErr = vm.Run(globals)
+		}
+	}()
+	for i := 0; counter.Load() == 0 && i < 100000; i++ {
+		time.Sleep(100 * time.Microsecond)
+	}
+	if counter.Load() == 0 {
+		c.Inconclusive("sleep probe: the script did not start")
+		c09abort(vm)
+		return
+	}
+	time.Sleep(30 * time.Millisecond) // the script is inside Sleep now
+	if mode == "eval" {
+		cancel()
+	} else {
+		c09abort(vm)
+	}
+	c.Count("sleep_probes")
+	select {
+	case <-done:
+		if runErr == nil {
+			c.Violation("C09|wrong-result|sleep|"+mode, "Run returned without error after an Abort during time.Sleep("+dur+")", c09wit{Workload: "sleep " + dur + " " + mode, Action: "abort", Why: "no error"})
+			return
+		}
+		c.Count("honoured")
+		c.Nontrivial("sleep|" + dur + "|" + mode)
+	case <-time.After(10 * time.Second):
+		c.Violation("C09|lost|sleep|"+mode, "Abort during time.Sleep("+dur+") ("+mode+"): Run is still not back after 10 s (the callback is documented to watch for the abort)", c09wit{Workload: "sleep " + dur + " " + mode, Action: "abort", Why: "not honoured within 10 s"})
+		c09stuck.Store(true)
+	}
+}
+
 func (m c09) stress(c *core.Ctx, wl c09wl, spin int) {
 	if c09stuck.Load() {
 		c.Count("skipped_after_unstoppable_run")
@@ -706,6 +779,22 @@ func (m c09) Run(c *core.Ctx) {
 					m.placement(c, wl, pt, 1, act, race)
 				}
 			}
+		}
+	}
+	for _, dur := range []string{"200 * time.Millisecond", "2 * time.Second", "time.Hour", "720 * time.Hour"} {
+		for _, mode := range []string{"root", "child", "eval"} {
+			idx++
+			if idx%c.NBatch != c.Batch {
+				continue
+			}
+			dur, mode := dur, mode
+			if !c.Begin(func() string { return "sleep probe " + dur + " " + mode }) {
+				continue
+			}
+			if c09stuck.Load() {
+				continue
+			}
+			m.sleepProbe(c, dur, mode)
 		}
 	}
 	// process level: cmd/ugo -timeout on an endless script must exit by itself
